@@ -1189,7 +1189,7 @@ func (p *BinaryProtocol) ReadBaseTypeWithDesc(desc *proto.TypeDescriptor, hasMes
 		}
 		// read repeat until sumLength equals MessageLength
 		start := p.Read
-		if start+messageLength > len(p.Buf) {
+		if messageLength < 0 || messageLength > len(p.Buf)-start {
 			return nil, errInvalidDataSize
 		}
 		// nested readers (unpacked lists, maps) scan until the end of the buffer:
